@@ -186,7 +186,15 @@ def condition(draw, cols, n):
 @st.composite
 def program(draw, cols, n, max_groups=3, max_conds=3):
     ngroups = draw(st.integers(1, max_groups))
-    groups = [[draw(condition(cols, n)) for _ in range(draw(st.integers(1, max_conds)))] for _ in range(ngroups)]
+    groups = []
+    for _ in range(ngroups):
+        k = draw(st.integers(1, max_conds))
+        if len(cols) >= 2 and draw(st.booleans()):
+            # one condition per column, over several different columns (interaction between columns of one AND group)
+            pick = draw(st.permutations(cols))[: max(2, k)]
+            groups.append([draw(condition([c], n)) for c in pick])
+        else:
+            groups.append([draw(condition(cols, n)) for _ in range(k)])
     flat = ngroups == 1 and draw(st.booleans())
     return {"flat": flat, "groups": groups}
 
